@@ -93,11 +93,15 @@ class SummaryHistories(RuleBasedStateMachine):
 
     @staticmethod
     def _weights(kind, names):
+        """weight of a contest depends on its name only; the dictionary is built in NON-sorted insertion order (callers
+        write their weights down in any order; the contests are matched by key)"""
         if kind == "none":
             return None
+        ranked = sorted(names)
+        order = ranked[1::2] + ranked[0::2][::-1]
         if kind == "ints":
-            return {n: 3 + 2 * i for i, n in enumerate(names)}
-        return {n: 1.5 + 0.25 * i for i, n in enumerate(names)}
+            return {n: 3 + 2 * ranked.index(n) for n in order}
+        return {n: 1.5 + 0.25 * ranked.index(n) for n in order}
 
     @rule(order=st.permutations(["county_fips", "county_classification", "unit", "TOP"]), keep=st.lists(st.booleans(), min_size=4, max_size=4), top_pos=st.integers(0, 3))
     def run(self, order, keep, top_pos):
@@ -156,8 +160,27 @@ class SummaryHistories(RuleBasedStateMachine):
                 self.failed = True
                 ctx.violation("wrong_size_not_rejected", f"{len(w)} weights for {len(self.contests)} contests: {key}", stored, sig="wrong_size")
             return
-        key, _ = summary_key(self.client, w, base, alphas)
+        key, df = summary_key(self.client, w, base, alphas)
         self.trace.append(("summary", [kind, base]))
+        if df is not None and not self.failed:
+            # the table the client returns must carry, per level, the bounds the model computes for that level
+            try:
+                pred = float(df["agg_pred"].iloc[0])
+                for a in alphas:
+                    est = self.client.model.get_national_summary_estimates(copy.deepcopy(w), base, a)["margin"]
+                    lo, up = float(df[f"lower_{a}"].iloc[0]), float(df[f"upper_{a}"].iloc[0])
+                    if (pred, lo, up) != tuple(float(x) for x in est) or not (lo <= pred <= up):
+                        self.failed = True
+                        ctx.violation(
+                            "summary_table_misreports_level",
+                            f"alpha={a}: table (pred, lower, upper) = ({pred}, {lo}, {up}); the model's estimate for this level is {est}",
+                            stored,
+                            sig="table_level",
+                        )
+                        break
+            except KeyError as e:
+                self.failed = True
+                ctx.violation("summary_table_columns", f"missing column {e}: {list(df.columns)}", stored, sig="table_columns")
         if key != refkey and not self.failed:
             self.failed = True
             ctx.violation(
